@@ -636,6 +636,7 @@ func classifyLoss(desc string) string {
 type C03Case struct {
 	W3        W3Case `json:"w3"`
 	Enumerate bool   `json:"enumerate"`
+	OnlyNode  int    `json:"only_node,omitempty"` // enumerate the crash points of this node only (0: of every node)
 }
 
 func genC03(r *simrt.Rand, tier string) json.RawMessage {
@@ -656,6 +657,37 @@ func genC03(r *simrt.Rand, tier string) json.RawMessage {
 		c.Ops = append(ops, c.Ops[k:]...)
 	}
 	cc := C03Case{W3: c, Enumerate: true}
+	if c.Nodes == 3 && c.Replicas == 3 && r.Bool(0.5) {
+		// a replica that falls behind without crashing (cut off from the others), is passed by
+		// the leader's compaction and is caught up by a snapshot when the network heals: the
+		// durable writes of that catch-up (received snapshot, hard state, suffix) are then part
+		// of the enumerated crash points
+		lag := r.Range(1, 3)
+		cc.W3.Cfg.SnapshotOffset = []int64{1, 2, 3}[r.Intn(3)]
+		var ops []W3Op
+		for _, op := range c.Ops {
+			if op.K != "wait" {
+				ops = append(ops, op)
+			}
+		}
+		k := r.Range(1, len(ops))
+		head := append([]W3Op(nil), ops[:k]...)
+		head = append(head, W3Op{K: "isolate", Node: lag})
+		for _, op := range ops[k:] {
+			if op.Node == lag { // clients talk to the connected side
+				op.Node = lag%3 + 1
+			}
+			op.Async = false
+			head = append(head, op)
+		}
+		head = append(head, W3Op{K: "wait", Ms: 10500}, W3Op{K: "heal"}, W3Op{K: "wait", Ms: 4000})
+		cc.W3.Ops = head
+		if r.Bool(0.7) {
+			cc.OnlyNode = lag
+		}
+		b, _ := json.Marshal(cc)
+		return b
+	}
 	if r.Bool(0.35) { // sampled multi-fault variant instead of the enumeration
 		cc.Enumerate = false
 		cc.W3.Faults = true
@@ -748,6 +780,9 @@ func execC03(raw json.RawMessage, wantLog bool) (out Outcome) {
 	}
 	sort.Ints(nodes)
 	for _, n := range nodes {
+		if c.OnlyNode != 0 && n != c.OnlyNode {
+			continue
+		}
 		for pos := 1; pos <= 2*hits[n]; pos++ {
 			v := base
 			v.Crash = &CrashPoint{Node: n, Pos: pos}
@@ -857,7 +892,11 @@ func shrinkC03(raw json.RawMessage) []json.RawMessage {
 	}
 	var out []json.RawMessage
 	shrinkW3Ops(c.W3, func(n W3Case) {
-		b, _ := json.Marshal(C03Case{W3: n, Enumerate: c.Enumerate})
+		on := c.OnlyNode
+		if on > n.Nodes {
+			on = 0
+		}
+		b, _ := json.Marshal(C03Case{W3: n, Enumerate: c.Enumerate, OnlyNode: on})
 		out = append(out, b)
 	})
 	return out
@@ -882,7 +921,7 @@ func init() {
 			if tier == "thorough" {
 				return 20000, 50 * time.Minute
 			}
-			return 400, 5 * time.Minute
+			return 800, 5 * time.Minute
 		},
 		WallPerSeed:  3 * time.Minute,
 		RecycleEvery: 25,
